@@ -819,7 +819,7 @@ class SqliteGitShaMap(GitShaMap):
         """
         for table in ("blobs", "commits", "trees"):
             for (sha,) in self.db.execute(f"select sha1 from {table}"):  # noqa: S608
-                yield sha.encode("ascii")
+                yield sha if isinstance(sha, bytes) else sha.encode("ascii")
 
 
 class TdbCacheUpdater(CacheUpdater):
@@ -1397,8 +1397,19 @@ class IndexGitShaMap(GitShaMap):
         """
         if self._builder is None:
             raise bzr_errors.BzrError("builder not open")
+        if self._builder.key_count() == 0:
+            # Nothing new (e.g. everything was already present); writing an
+            # index would only risk replacing an earlier file of the same name.
+            self._builder = None
+            self._name = None
+            return
         stream = self._builder.finish()
         name = self._name.hexdigest() + ".rix"
+        while self._transport.has(name):
+            # The name only covers the git shas seen in this write group;
+            # never overwrite the index file of an earlier write group.
+            self._name.update(b"+")
+            name = self._name.hexdigest() + ".rix"
         size = self._transport.put_file(name, stream)
         index = _mod_btree_index.BTreeGraphIndex(self._transport, name, size)
         self._index.insert_index(0, index)
